@@ -122,7 +122,7 @@ _ADD = {
  "C05": " Schedule independence is a differential oracle against the canonical fair schedule; two successive conflicts on one file; provider pairs with different hash functions.",
  "C06": " Cold start with a stop inside the start-up walk, the first session of an empty pair, and three engine generations over one storage are further families.",
  "C07": " Cold start with the crash at any write of the first run, and one more user operation after the recovery, are further families.",
- "C08": " Intake batches cut short by a temporary error after k events are included.",
+ "C08": " Intake batches cut short by a temporary error after k events are included; so are split/discard of an entry in one step and a commit whose n-th storage write fails once and is retried.",
  "C09": " The on-disk backend is also run concretely with an injected reconnect and close/reopen, and with two callers interleaved at the storage mutex's release points (linearizability oracle).",
  "C10": " Cold start with one fault during the start-up walk, two faults close together, and a peer edit between the fault and the retry are further families.",
  "C12": " Account pairs that differ in case sensitivity (with a case-variant sibling of the root) and an in-root delete followed by a byte-identical file outside the root are further families.",
